@@ -7,11 +7,11 @@ CONSTANTS
   PlateSize = 2
   Scales = {1}
   MaxFactors = 2
-  Plus = "max"
-  Times = "mul"
-  LeafKind = "nonneg"
-  Param = FALSE
-  Tag = "sp_maxmul"
+  Plus = "logaddexp"
+  Times = "add"
+  LeafKind = "log"
+  Param = TRUE
+  Tag = "sp_logaddexp_param"
 INVARIANT Inv_OracleInputs
 INVARIANT Emit
 CHECK_DEADLOCK FALSE
